@@ -21,6 +21,29 @@ pub struct BlockScenario {
     pub threshold: Option<u32>,
     /// arrival sequence: each inner list is handed to decode() in one call
     pub steps: Vec<Vec<u32>>,
+    /// explicit block content (hex, K*T octets) instead of the seeded one: content crafted so that
+    /// every symbol of a rank-deficient received set is all-zero while the block is not
+    #[serde(default, skip_serializing_if = "Option::is_none")]
+    pub data_hex: Option<String>,
+}
+
+fn hex_of(b: &[u8]) -> String {
+    b.iter().map(|x| format!("{x:02x}")).collect()
+}
+
+fn unhex(s: &str) -> Vec<u8> {
+    (0..s.len() / 2).map(|i| u8::from_str_radix(&s[2 * i..2 * i + 2], 16).unwrap_or(0)).collect()
+}
+
+/// Block content in the kernel of a rank-deficient received set (see `data_hex`).
+fn kernel_block(r: &mut Rng, pr: &Params, deficient: &Basis, t: u16) -> Option<String> {
+    let c = deficient.kernel_vector(&mut || r.below(256) as u8)?;
+    let mults: Vec<u8> = (0..t).map(|_| 1 + r.below(255) as u8).collect();
+    let block = crate::rank::block_from_intermediate(pr, &c, &mults);
+    if block.iter().all(|x| *x == 0) {
+        return None; // cannot happen for a consistent oracle; the ordinary content is used instead
+    }
+    Some(hex_of(&block))
 }
 
 pub struct Fail {
@@ -55,7 +78,16 @@ pub fn execute(sc: &BlockScenario, probes: &mut Counters, states: Option<&mut Ha
     let k = sc.k;
     let cfg = ObjectTransmissionInformation::new(k as u64 * sc.t as u64, sc.t, 1, 1, 1);
     let built = guarded(|| {
-        let entry = crate::c03::encoder_for(k, sc.t, sc.data_seed);
+        let entry = match &sc.data_hex {
+            None => crate::c03::encoder_for(k, sc.t, sc.data_seed),
+            Some(h) => {
+                let mut data = unhex(h);
+                data.resize(k as usize * sc.t as usize, 0);
+                let enc = raptorq::SourceBlockEncoder::new(0, &cfg, &data);
+                let src = enc.source_packets();
+                std::rc::Rc::new((enc, src, data))
+            }
+        };
         let mut dec = SourceBlockDecoder::new(0, &cfg, k as u64 * sc.t as u64);
         if let Some(t) = sc.threshold {
             dec.verif_set_sparse_threshold(t);
@@ -73,6 +105,7 @@ pub fn execute(sc: &BlockScenario, probes: &mut Counters, states: Option<&mut Ha
     let mut out = Outcome { prefix_checks: 0, oracle_runs: 0, singular_at_ge_k: 0, decoded: false, final_set_hash: 0 };
     let mut states = states;
     let mut set_hash = (k as u64) << 40;
+    let mut all_zero_so_far = true;
     for (at, step) in sc.steps.iter().enumerate() {
         let mut packets: Vec<EncodingPacket> = vec![];
         for &e in step {
@@ -110,6 +143,12 @@ pub fn execute(sc: &BlockScenario, probes: &mut Counters, states: Option<&mut Ha
         }
         let n = have.len() as u32;
         let all_source = src_have == k;
+        if sc.data_hex.is_some() {
+            all_zero_so_far &= packets.iter().all(|p| p.data().iter().all(|x| *x == 0));
+            if all_zero_so_far && n >= k && !basis.full() {
+                probes.inc("all_zero_symbols_of_nonzero_block_at_ge_k");
+            }
+        }
         let expected = all_source || (n >= k && basis.full());
         if n >= k && !basis.full() && !all_source {
             out.singular_at_ge_k += 1;
@@ -200,6 +239,7 @@ fn generate_flood(r: &mut Rng, k: u32, t: u16, threshold: Option<u32>) -> Option
     if redundant.len() < 10 {
         return None;
     }
+    let deficient = basis.clone();
     // informative symbols until the oracle's rank is full
     let mut informative: Vec<u32> = vec![];
     let mut tries = 0;
@@ -236,7 +276,10 @@ fn generate_flood(r: &mut Rng, k: u32, t: u16, threshold: Option<u32>) -> Option
     for e in informative {
         steps.push(vec![e]);
     }
-    Some(BlockScenario { k, t, data_seed: 0x0C02_0000 + ((k as u64) << 8) + t as u64, threshold, steps })
+    // half of the floods carry content from the kernel of the deficient set: every symbol received
+    // before the informative ones is all-zero although the block is not
+    let data_hex = if r.chance(1, 2) { kernel_block(r, &pr, &deficient, t) } else { None };
+    Some(BlockScenario { k, t, data_seed: 0x0C02_0000 + ((k as u64) << 8) + t as u64, threshold, steps, data_hex })
 }
 
 pub fn generate(seed: u64, quick: bool) -> BlockScenario {
@@ -357,8 +400,29 @@ pub fn generate(seed: u64, quick: bool) -> BlockScenario {
             steps.push(vec![d]);
         }
     }
-    // the block content is irrelevant to decodability: one content per (K, T) lets encoders be shared
-    BlockScenario { k, t, data_seed: 0x0C02_0000 + ((k as u64) << 8) + t as u64, threshold, steps }
+    // twins: content from the kernel of the longest rank-deficient prefix of >= K symbols, if any
+    let mut data_hex = None;
+    if !twin_list.is_empty() && k <= 130 && r.chance(1, 2) {
+        let (pr, mut basis) = base_cached(k);
+        let mut seen: BTreeSet<u32> = BTreeSet::new();
+        let mut deficient: Option<Basis> = None;
+        for e in steps.iter().flatten() {
+            if seen.insert(*e) {
+                basis.insert(lt_row(&pr, isi_of(&pr, *e)));
+            }
+            if basis.full() {
+                break;
+            }
+            if seen.len() as u32 >= k {
+                deficient = Some(basis.clone());
+            }
+        }
+        if let Some(d) = deficient {
+            data_hex = kernel_block(&mut r, &pr, &d, t);
+        }
+    }
+    // otherwise the block content is irrelevant to decodability: one content per (K, T) lets encoders be shared
+    BlockScenario { k, t, data_seed: 0x0C02_0000 + ((k as u64) << 8) + t as u64, threshold, steps, data_hex }
 }
 
 const STREAM: u64 = 2;
@@ -492,7 +556,7 @@ pub fn run(ctx: &Ctx) -> i32 {
         violations.push(to_violation(ctx, run, &min, &f2, Some((from, to))));
     }
     let mut probes = acc.probes.clone();
-    for k in ["no_hdpc_attempt_eligible", "decoded_at_exactly_k_by_solving", "decoded_from_repair_only", "duplicate_in_sequence", "batched_step"] {
+    for k in ["no_hdpc_attempt_eligible", "decoded_at_exactly_k_by_solving", "decoded_from_repair_only", "duplicate_in_sequence", "batched_step", "all_zero_symbols_of_nonzero_block_at_ge_k"] {
         probes.touch(k);
     }
     probes.add("singular_at_ge_k_prefixes", acc.singular);
